@@ -134,7 +134,7 @@ def run(tier):
     rep = common.Report(PROP)
     root = common.repo_root()
     assumptions = [
-        'distinct function instantiations have distinct display names (aot_compiled_function_name, dora-bytecode/display.rs): not decided',
+        'distinct function instantiations have distinct display names (aot_compiled_function_name, dora-bytecode/display.rs): NOT proved; display_fct over all functions of generated programs is executed by runner c19names (sampled)',
         '128-bit FNV-1a is treated as collision-free on the unshortened symbols of one program (not provable: FNV is not injective); '
         'the contract pins WHAT is hashed (the whole unshortened symbol) and that equal shortened symbols imply equal hash and equal kept prefix',
         'std contracts assumed (listed in trusted_base): String::len/as_bytes/with_capacity, u8::is_ascii_alphanumeric, Option::copied, '
